@@ -108,6 +108,7 @@ func c34Expected(role string) map[string]string {
 // c34Site is one Authorizer.Authorize call inside a goroutine of the function.
 type c34Site struct {
 	call   *ssa.Call
+	ctx    []*ssa.Call // calling context (family call sites, outermost first) when the call sits in a shared helper
 	fn     *ssa.Function
 	attrs  map[string]string // field -> symbolic value ("" if not decidable)
 	why    map[string]string
@@ -128,48 +129,81 @@ func runC34(c *Ctx) {
 	}
 	name := fnName(fn)
 	site := p.Pos(fn.Pos())
+	fam := newC34Fam(p, fn)
+
+	// Each family resolves what it needs under its own guard: a lost anchor (exit 2) of one
+	// family never silences the verdicts of the others; the combined loss is raised at the end.
+	var lost []string
 
 	// ------------------------------------------------------------- race --
-	res := raceAnalyze(fn)
-	if len(res.Threads) == 0 {
-		c.Lost("%s spawns no goroutine (the property is about its concurrent checks)", name)
-	}
-	c34ReportRace(c, p, "C34.race/"+name, site, res)
-	for _, cf := range withClosures([]*ssa.Function{fn})[1:] {
-		if r2 := raceAnalyze(cf); len(r2.Threads) > 0 {
-			c34ReportRace(c, p, "C34.race/"+fnName(cf), p.Pos(cf.Pos()), r2)
+	var res *raceResult
+	c23Guarded(&lost, func() {
+		res = raceAnalyze(fn)
+		if len(res.Threads) == 0 {
+			res = nil
+			c.Lost("%s spawns no goroutine (the property is about its concurrent checks)", name)
 		}
+		c34ReportRace(c, p, "C34.race/"+name, site, res)
+		for _, cf := range fam.list {
+			if cf == fn {
+				continue
+			}
+			if r2 := raceAnalyze(cf); len(r2.Threads) > 0 {
+				c34ReportRace(c, p, "C34.race/"+fnName(cf), p.Pos(cf.Pos()), r2)
+			}
+		}
+	})
+	if res == nil {
+		c.Lost("%s", strings.Join(lost, " | "))
 	}
+	c23Guarded(&lost, func() { c34AllowExits(c, p, fn, res) })
 
 	// ---------------------------------------------------- Authorize sites --
-	authz, _ := p.LookupExt(c34AuthPkg, "Authorizer.Authorize").(*types.Func)
-	if authz == nil {
-		c.Lost("%s.Authorizer.Authorize", c34AuthPkg)
-	}
-	sym := newC34Sym(c, p, fn)
+	// The three checks are found wherever they run on behalf of the function: in its goroutine
+	// closures and in the in-package functions/methods those call (directly or transitively).
+	var sym *c34SymT
 	var sites []*c34Site
-	for _, cs := range callsIn(fn, true, func(f *types.Func) bool { return f == authz }) {
-		call, ok := cs.Instr.(*ssa.Call)
-		if !ok {
-			c.Undecided("C34.source/"+name, p.Pos(cs.Instr.Pos()), "Authorize is invoked by go/defer: its result is lost")
-			continue
-		}
-		sites = append(sites, c34NewSite(sym, call, cs.Fn))
-	}
-	if len(sites) != 3 {
-		c.Lost("expected 3 Authorizer.Authorize calls in %s, found %d", name, len(sites))
-	}
-	// decision variables = roots receiving result #0
 	var decVars []ssa.Value
-	for _, s := range sites {
-		if s.decVar == nil {
-			c.Lost("result #0 of the Authorize call at %s is not stored into a variable of %s", p.Pos(s.call.Pos()), name)
+	c23Guarded(&lost, func() {
+		authz, _ := p.LookupExt(c34AuthPkg, "Authorizer.Authorize").(*types.Func)
+		if authz == nil {
+			c.Lost("%s.Authorizer.Authorize", c34AuthPkg)
 		}
-		decVars = append(decVars, s.decVar)
+		sym = newC34Sym(c, p, fn, fam)
+		var found []*c34Site
+		for _, g := range fam.list {
+			for _, cs := range callsIn(g, false, func(f *types.Func) bool { return f == authz }) {
+				call, ok := cs.Instr.(*ssa.Call)
+				if !ok {
+					c.Undecided("C34.source/"+name, p.Pos(cs.Instr.Pos()), "Authorize is invoked by go/defer: its result is lost")
+					continue
+				}
+				// one site per calling context of the function containing the call
+				for _, ctx := range fam.contexts(g, res) {
+					found = append(found, c34NewSite(sym, call, cs.Fn, ctx))
+				}
+			}
+		}
+		if len(found) != 3 {
+			c.Lost("expected 3 Authorizer.Authorize calls in %s, its goroutines and the package functions they call, found %d", name, len(found))
+		}
+		// decision variables = roots receiving result #0
+		for _, s := range found {
+			if s.decVar == nil {
+				c.Lost("result #0 of the Authorize call at %s is not stored into a variable of %s", p.Pos(s.call.Pos()), name)
+			}
+			decVars = append(decVars, s.decVar)
+		}
+		sites = found
+	})
+	if sites == nil {
+		c.Lost("%s", strings.Join(lost, " | "))
 	}
 
 	// -------------------------------------------------------------- table --
-	table, tableErr := c34Table(c, p, fn, res, decVars)
+	var table *c34TableT
+	tableErr := "the decision table could not be built"
+	c23Guarded(&lost, func() { table, tableErr = c34Table(c, p, fn, res, decVars) })
 
 	// choose the role assignment with the fewest mismatches
 	perms := [][3]int{{0, 1, 2}, {0, 2, 1}, {1, 0, 2}, {1, 2, 0}, {2, 0, 1}, {2, 1, 0}}
@@ -199,7 +233,6 @@ func runC34(c *Ctx) {
 			fmt.Sprintf("%d combinations of decision values executed from wg.Wait to a return: nil returned iff getTier==Allow && (policy==Allow || wildcard==Allow)", len(table.rows)),
 			"the code after wg.Wait does not compute getTier==Allow && (policy==Allow || wildcard==Allow): "+c34TableDiff(table, best[0], best[1], best[2]))
 	}
-	c34AllowExits(c, p, fn, res)
 
 	for ri, role := range c34Roles {
 		s := sites[best[ri]]
@@ -217,9 +250,12 @@ func runC34(c *Ctx) {
 				c.Violate(key, at, "Authorize call for the %s check passes %s = %s, expected %s", role, f, got, exp[f])
 			}
 		}
-		c34Source(c, p, fn, res, "C34.source/"+role, s)
+		c23Guarded(&lost, func() { c34Source(c, p, fn, res, "C34.source/"+role, s, fam) })
 	}
-	c34Indep(c, p, fn, res, sym, sites, best, table, tableErr)
+	c23Guarded(&lost, func() { c34Indep(c, p, fn, res, sym, sites, best, table, tableErr, fam) })
+	if len(lost) > 0 {
+		c.Lost("%s", strings.Join(lost, " | "))
+	}
 }
 
 // ------------------------------------------------------------ independence --
@@ -255,6 +291,19 @@ func c34CtxOrigins(sym *c34SymT, v ssa.Value) (params []*ssa.Parameter, derivs [
 		seen[v] = true
 		switch x := v.(type) {
 		case *ssa.Parameter:
+			if x.Parent() != sym.top {
+				// parameter of a helper running on behalf of the function: the arguments it is called with
+				if a, _, ok := c34CtxArg(sym.ctx, x); ok {
+					walk(a)
+					return
+				}
+				if as, ok := sym.fam.args(x); ok {
+					for _, a := range as {
+						walk(a)
+					}
+					return
+				}
+			}
 			params = append(params, x)
 		case *ssa.MakeInterface:
 			walk(x.X)
@@ -375,7 +424,7 @@ func c34CancelUses(sym *c34SymT, deriv *ssa.Call) []c34CancelUse {
 		useOf(v)
 	}
 	// loads of the variables holding the function, anywhere in the family
-	for _, f := range withClosures([]*ssa.Function{sym.top}) {
+	for _, f := range sym.fam.list {
 		allInstrs(f, false, func(_ *ssa.Function, in ssa.Instruction) {
 			ld, ok := in.(*ssa.UnOp)
 			if !ok || ld.Op != token.MUL {
@@ -406,19 +455,14 @@ func c34DecisionName(p *Prog, cv constant.Value) string {
 }
 
 // c34Indep: see the rule text.  sites[best[ri]] is the site of role c34Roles[ri].
-func c34Indep(c *Ctx, p *Prog, fn *ssa.Function, res *raceResult, sym *c34SymT, sites []*c34Site, best [3]int, table *c34TableT, tableErr string) {
-	threadOf := func(in ssa.Instruction) int {
-		for g := in.Parent(); g != nil; g = g.Parent() {
-			for _, th := range res.Threads {
-				if th.Fn == g {
-					return th.Idx
-				}
-			}
-			if g == fn {
-				return -1
-			}
+func c34Indep(c *Ctx, p *Prog, fn *ssa.Function, res *raceResult, sym *c34SymT, sites []*c34Site, best [3]int, table *c34TableT, tableErr string, fam *c34FamT) {
+	// a function called from a goroutine closure (or run by the go statement itself) runs in that goroutine
+	threadOf := func(in ssa.Instruction) int { return fam.threadOf(in.Parent(), res) }
+	siteThread := func(s *c34Site) int {
+		if len(s.ctx) > 0 {
+			return threadOf(s.ctx[0])
 		}
-		return -2
+		return threadOf(s.call)
 	}
 	roleOfSite := map[int]string{}
 	for ri, role := range c34Roles {
@@ -426,7 +470,7 @@ func c34Indep(c *Ctx, p *Prog, fn *ssa.Function, res *raceResult, sym *c34SymT, 
 	}
 	siteOfThread := map[int]int{}
 	for i, s := range sites {
-		siteOfThread[threadOf(s.call)] = i
+		siteOfThread[siteThread(s)] = i
 	}
 	var waits []ssa.Instruction
 	for _, ws := range res.Waits {
@@ -529,7 +573,9 @@ func c34Indep(c *Ctx, p *Prog, fn *ssa.Function, res *raceResult, sym *c34SymT, 
 		if len(args) != 2 || !c34IsCtx(args[0].Type()) {
 			c.Lost("Authorize call at %s does not take (ctx, attributes)", at)
 		}
+		sym.ctx = s.ctx
 		params, derivs, unknown := c34CtxOrigins(sym, args[0])
+		sym.ctx = nil
 		if len(unknown) > 0 {
 			c.Undecided(key, at, "the context passed to the %s lookup derives from %v: cannot decide who may cancel it", role, unknown)
 			continue
@@ -543,7 +589,7 @@ func c34Indep(c *Ctx, p *Prog, fn *ssa.Function, res *raceResult, sym *c34SymT, 
 		if len(params) == 0 {
 			bad = fmt.Sprintf("the context passed to the %s lookup does not derive from the function's ctx parameter (request deadline and values are lost)", role)
 		}
-		me := threadOf(s.call)
+		me := siteThread(s)
 		for _, d := range derivs {
 			for _, u := range c34CancelUses(sym, d) {
 				if u.in == nil {
@@ -561,7 +607,7 @@ func c34Indep(c *Ctx, p *Prog, fn *ssa.Function, res *raceResult, sym *c34SymT, 
 					// runs when the spawning function returns: after the join iff every return reachable from the spawn is
 					ok := true
 					for _, r := range c34Returns(fn) {
-						if instrReaches(s.goInstr(res), r.Return) && !afterJoin(r.Return) {
+						if instrReaches(s.goInstr(res, fam), r.Return) && !afterJoin(r.Return) {
 							ok = false
 						}
 					}
@@ -615,15 +661,15 @@ func c34Indep(c *Ctx, p *Prog, fn *ssa.Function, res *raceResult, sym *c34SymT, 
 }
 
 // goInstr: the go statement (or group.Go call) of the thread the site's call runs in.
-func (s *c34Site) goInstr(res *raceResult) ssa.Instruction {
-	for g := s.call.Parent(); g != nil; g = g.Parent() {
-		for _, th := range res.Threads {
-			if th.Fn == g {
-				return th.Spawn
-			}
-		}
+func (s *c34Site) goInstr(res *raceResult, fam *c34FamT) ssa.Instruction {
+	at := ssa.Instruction(s.call)
+	if len(s.ctx) > 0 {
+		at = s.ctx[0]
 	}
-	return s.call
+	if t := fam.threadOf(at.Parent(), res); t >= 0 {
+		return res.Threads[t].Spawn
+	}
+	return at
 }
 
 func c34ReportRace(c *Ctx, p *Prog, key, site string, res *raceResult) {
@@ -653,17 +699,23 @@ func c34ReportRace(c *Ctx, p *Prog, key, site string, res *raceResult) {
 type c34SymT struct {
 	c      *Ctx
 	p      *Prog
+	fam    *c34FamT
+	ctx    []*ssa.Call // calling context of the site being evaluated (nil: context-insensitive)
 	top    *ssa.Function
 	bind   map[*ssa.FreeVar]ssa.Value
 	stores map[ssa.Value][]*ssa.Store // root alloc -> stores (anywhere in top and its closures)
 	params map[*ssa.Parameter]string
 }
 
-func newC34Sym(c *Ctx, p *Prog, top *ssa.Function) *c34SymT {
-	s := &c34SymT{c: c, p: p, top: top, bind: map[*ssa.FreeVar]ssa.Value{}, stores: map[ssa.Value][]*ssa.Store{}, params: map[*ssa.Parameter]string{}}
+func newC34Sym(c *Ctx, p *Prog, top *ssa.Function, fam *c34FamT) *c34SymT {
+	s := &c34SymT{c: c, p: p, fam: fam, top: top, bind: map[*ssa.FreeVar]ssa.Value{}, stores: map[ssa.Value][]*ssa.Store{}, params: map[*ssa.Parameter]string{}}
 	e := &raceEng{fn: top, bind: s.bind}
-	e.indexBindings(top)
-	for _, f := range withClosures([]*ssa.Function{top}) {
+	for _, f := range fam.list {
+		if f.Parent() == nil {
+			e.indexBindings(f)
+		}
+	}
+	for _, f := range fam.list {
 		allInstrs(f, false, func(_ *ssa.Function, in ssa.Instruction) {
 			if st, ok := in.(*ssa.Store); ok {
 				if r := s.root(st.Addr); r != nil {
@@ -695,7 +747,7 @@ func newC34Sym(c *Ctx, p *Prog, top *ssa.Function) *c34SymT {
 // root: the Alloc (in any function of the family) an address value denotes, if it
 // is exactly a variable (no field/index).
 func (s *c34SymT) root(addr ssa.Value) ssa.Value {
-	for {
+	for i := 0; ; i++ {
 		switch x := addr.(type) {
 		case *ssa.Alloc:
 			return x
@@ -705,6 +757,26 @@ func (s *c34SymT) root(addr ssa.Value) ssa.Value {
 				return nil
 			}
 			addr = b
+			continue
+		case *ssa.Parameter:
+			// pointer parameter of a helper: the variable whose address every call site passes
+			if x.Parent() == s.top || i > 6 {
+				return nil
+			}
+			if a, _, ok := c34CtxArg(s.ctx, x); ok {
+				addr = a
+				continue
+			}
+			as, ok := s.fam.args(x)
+			if !ok || len(as) == 0 {
+				return nil
+			}
+			for _, a := range as[1:] {
+				if a != as[0] {
+					return nil
+				}
+			}
+			addr = as[0]
 			continue
 		}
 		return nil
@@ -727,6 +799,20 @@ func (s *c34SymT) sym(v ssa.Value, depth int) string {
 	case *ssa.Parameter:
 		if n, ok := s.params[x]; ok {
 			return "param:" + n
+		}
+		// parameter of a helper: what the call site of the current calling context passes,
+		// else what all call sites pass (they must agree)
+		if x.Parent() != s.top {
+			if a, outer, ok := c34CtxArg(s.ctx, x); ok {
+				saved := s.ctx
+				s.ctx = outer
+				r := s.sym(a, depth+1)
+				s.ctx = saved
+				return r
+			}
+			if as, ok := s.fam.args(x); ok && len(as) > 0 {
+				return s.alt(as, depth)
+			}
 		}
 		return "?param"
 	case *ssa.MakeInterface:
@@ -825,20 +911,15 @@ func (s *c34SymT) concat(parts []string) string {
 	return strings.Join(out, "+")
 }
 
-func c34NewSite(sym *c34SymT, call *ssa.Call, fn *ssa.Function) *c34Site {
-	s := &c34Site{call: call, fn: fn, attrs: map[string]string{}, why: map[string]string{}}
-	// decision variable: Extract #0 stored into a root
-	if refs := call.Referrers(); refs != nil {
-		for _, r := range *refs {
-			if ex, ok := r.(*ssa.Extract); ok && ex.Index == 0 && ex.Referrers() != nil {
-				for _, rr := range *ex.Referrers() {
-					if st, ok := rr.(*ssa.Store); ok && st.Val == ex {
-						if root := sym.root(st.Addr); root != nil && root.Parent() == sym.top {
-							s.decVar = root
-						}
-					}
-				}
-			}
+func c34NewSite(sym *c34SymT, call *ssa.Call, fn *ssa.Function, ctx []*ssa.Call) *c34Site {
+	s := &c34Site{call: call, ctx: ctx, fn: fn, attrs: map[string]string{}, why: map[string]string{}}
+	sym.ctx = ctx
+	defer func() { sym.ctx = nil }()
+	// decision variable: result #0 stored into a root of the top function — directly, through a
+	// pointer parameter, or after the helper containing the call has returned it
+	for _, st := range sym.fam.storesOfResultCtx(call, ctx) {
+		if root := sym.root(st.Addr); root != nil && root.Parent() == sym.top {
+			s.decVar = root
 		}
 	}
 	// attributes literal: the interface argument is a load of a local struct variable
@@ -851,7 +932,36 @@ func c34NewSite(sym *c34SymT, call *ssa.Call, fn *ssa.Function) *c34Site {
 		v = mi.X
 	}
 	var lit *ssa.Alloc
-	for i := 0; i < 4 && lit == nil; i++ {
+	for i := 0; i < 6 && lit == nil; i++ {
+		// handed to the helper containing the call as a parameter: continue at the call site
+		if pa, ok := v.(*ssa.Parameter); ok {
+			a, outer, ok := c34CtxArg(sym.ctx, pa)
+			if !ok {
+				as, ok2 := sym.fam.args(pa)
+				if !ok2 || len(as) != 1 {
+					break
+				}
+				a, outer = as[0], nil
+			}
+			v, sym.ctx = a, outer
+			if mi, ok := v.(*ssa.MakeInterface); ok {
+				v = mi.X
+			}
+			continue
+		}
+		// built and returned by a package function: continue with what that function returns
+		if cl, ok := v.(*ssa.Call); ok {
+			h := calleeFn(cl.Common())
+			if h == nil || !sym.fam.in[h] {
+				break
+			}
+			rets := c34Returns(h)
+			if len(rets) != 1 || len(rets[0].Vals) != 1 {
+				break
+			}
+			v = rets[0].Vals[0]
+			continue
+		}
 		ld, ok := v.(*ssa.UnOp)
 		if !ok || ld.Op != token.MUL {
 			break
@@ -930,7 +1040,7 @@ func c34Zero(lit *ssa.Alloc, field string) string {
 
 // c34Source: the decision variable fed by site s has exactly one store, from
 // Authorize's result #0, executed on every path of its goroutine.
-func c34Source(c *Ctx, p *Prog, fn *ssa.Function, res *raceResult, key string, s *c34Site) {
+func c34Source(c *Ctx, p *Prog, fn *ssa.Function, res *raceResult, key string, s *c34Site, fam *c34FamT) {
 	var bad []string
 	n := 0
 	for _, a := range res.Accesses {
@@ -943,15 +1053,23 @@ func c34Source(c *Ctx, p *Prog, fn *ssa.Function, res *raceResult, key string, s
 			bad = append(bad, fmt.Sprintf("address of %s escapes at %s", a.Var.Name, p.Pos(a.Instr.Pos())))
 			continue
 		}
-		ex, ok := st.Val.(*ssa.Extract)
-		if !ok || ex.Tuple != ssa.Value(s.call) || ex.Index != 0 {
-			bad = append(bad, fmt.Sprintf("%s is also assigned at %s from %s, not from the decision result of its Authorize call", a.Var.Name, p.Pos(st.Pos()), path(st.Val)))
+		// the stored value is result #0 of the site's Authorize call; when the call sits in a
+		// helper, every return of the helper must hand exactly that result up
+		if !fam.derivesFrom(st.Val, s.call, 0) {
+			bad = append(bad, fmt.Sprintf("%s is also assigned at %s from %s, not (on every path) from the decision result of its Authorize call", a.Var.Name, p.Pos(st.Pos()), path(st.Val)))
 			continue
 		}
 		f := st.Parent()
 		pd := postDominators(f)
 		if !(st.Block() == f.Blocks[0] || pd[f.Blocks[0]][st.Block()]) {
 			bad = append(bad, fmt.Sprintf("%s is assigned only on some paths of the goroutine (%s)", a.Var.Name, p.Pos(st.Pos())))
+		}
+		// the Authorize call itself runs on every path of the function it sits in
+		if g := s.call.Parent(); g != f {
+			pdg := postDominators(g)
+			if !(s.call.Block() == g.Blocks[0] || pdg[g.Blocks[0]][s.call.Block()]) {
+				bad = append(bad, fmt.Sprintf("the Authorize call at %s runs only on some paths of %s", p.Pos(s.call.Pos()), fnName(g)))
+			}
 		}
 	}
 	if n == 0 {
